@@ -456,6 +456,72 @@ Proof.
     intros; try congruence.
 Qed.
 
+(* ------------------------------------------------------------ source positions *)
+
+Local Open Scope Z_scope.
+
+Lemma skip_loc_valid : forall val l c,
+  1 <= l -> 1 <= c -> 1 <= fst (skip_loc val l c) /\ 1 <= snd (skip_loc val l c).
+Proof.
+  unfold skip_loc.
+  induction val as [|b r IH]; intros l c Hl Hc; cbn [fold_left fst snd].
+  - split; assumption.
+  - destruct (b2n b =? 10)%N; apply IH; lia.
+Qed.
+
+Definition loc_valid (r : tokrec) : Prop := 1 <= t_line r /\ 1 <= t_col r.
+
+Lemma lex_all_locations : forall fuel st l,
+  1 <= l_line st -> 1 <= l_col st -> 0 <= l_toklen st ->
+  lex_all fuel st = Some l -> Forall loc_valid l.
+Proof.
+  induction fuel as [|f IH]; intros st l Hl Hc Ht H; [discriminate H|].
+  cbn [lex_all] in H.
+  destruct (l_src st) as [|c0 r0]; [inversion H; constructor|].
+  destruct (next_token (c0 :: r0)) as [t n].
+  set (col1 := if l_inc st then l_col st + l_toklen st else l_col st) in *.
+  assert (Hc1 : 1 <= col1) by (subst col1; destruct (l_inc st); lia).
+  destruct t.
+  - destruct (skip_loc (firstn n (c0 :: r0)) (l_line st) col1) as [l' c'] eqn:Es.
+    pose proof (skip_loc_valid (firstn n (c0 :: r0)) (l_line st) col1 Hl Hc1) as Hv.
+    rewrite Es in Hv. cbn [fst snd] in Hv.
+    eapply IH; [| | |exact H]; cbn; lia.
+  - match type of H with context [lex_all f ?s] => destruct (lex_all f s) as [l0|] eqn:E end; [|discriminate H].
+    inversion H; subst l. constructor.
+    + split; cbn; lia.
+    + eapply IH; [| | |exact E]; cbn; lia.
+  - inversion H; subst l. constructor; [split; cbn; lia|constructor].
+  - match type of H with context [lex_all f ?s] => destruct (lex_all f s) as [l0|] eqn:E end; [|discriminate H].
+    inversion H; subst l. constructor; [split; cbn; lia|].
+    eapply IH; [| | |exact E]; cbn; lia.
+  - match type of H with context [lex_all f ?s] => destruct (lex_all f s) as [l0|] eqn:E end; [|discriminate H].
+    inversion H; subst l. constructor; [split; cbn; lia|].
+    eapply IH; [| | |exact E]; cbn; lia.
+  - match type of H with context [lex_all f ?s] => destruct (lex_all f s) as [l0|] eqn:E end; [|discriminate H].
+    inversion H; subst l. constructor; [split; cbn; lia|].
+    eapply IH; [| | |exact E]; cbn; lia.
+  - match type of H with context [lex_all f ?s] => destruct (lex_all f s) as [l0|] eqn:E end; [|discriminate H].
+    inversion H; subst l. constructor; [split; cbn; lia|].
+    eapply IH; [| | |exact E]; cbn; lia.
+  - match type of H with context [lex_all f ?s] => destruct (lex_all f s) as [l0|] eqn:E end; [|discriminate H].
+    inversion H; subst l. constructor; [split; cbn; lia|].
+    eapply IH; [| | |exact E]; cbn; lia.
+  - match type of H with context [lex_all f ?s] => destruct (lex_all f s) as [l0|] eqn:E end; [|discriminate H].
+    inversion H; subst l. constructor; [split; cbn; lia|].
+    eapply IH; [| | |exact E]; cbn; lia.
+Qed.
+
+(* Every token the parser is handed (and every comment block) carries a valid
+   source position: line and column are at least 1. *)
+Lemma lex_locations_valid_lemma : forall src l,
+  lex_source src = Some l -> Forall loc_valid l.
+Proof.
+  intros src l H. unfold lex_source in H.
+  eapply lex_all_locations; [| | |exact H]; cbn; lia.
+Qed.
+
+Local Close Scope Z_scope.
+
 (* ------------------------------------------------------------ why the repairs were needed *)
 
 (* Without the range checks in nextToken the contract is false ... *)
